@@ -311,6 +311,10 @@ Rebind(s, what, name, kind) == IF what = "f" THEN [s EXCEPT !.funcs = Ext(@, nam
 
 Snapshot(s) == [vars |-> s.entry, node |-> s.node, visits |-> s.visits]
 
+\* a snapshot written by the host itself (the fields are public): the named node, no variables, no
+\* visits - the natural way of starting a dialogue somewhere else than in its first node
+HandSnap(p, node) == [vars |-> InitStore(p), node |-> node, visits |-> [t \in Titles(p) |-> 0]]
+
 \* restoring a snapshot that names an unknown node fails and changes nothing
 RestoreOk(p, snap) == snap.node \in Titles(p)
 Restore(p, s, snap) ==
